@@ -14,7 +14,7 @@ RULES = [
     (8, "more-attempts-than-max-retries-in-window"),
     (9, "restart-before-min-delay"),
     (10, "transient-cause-degraded-with-retries-left"),
-]
+]   # bit 2 also covers: arch-v2, a fatal cause on one destination branch next to a transient failure of a sibling
 KINDS = [(11, "dlq-write"), (12, "processor-error"), (13, "dlq-threshold"), (14, "force-stop")]
 
 OBLIGATIONS = {
@@ -132,6 +132,17 @@ def candidate_inputs():
                     _s("call", "stopall"), _s("release", "src.td")] + post, "shape": "cand-force-then-shutdown"})
         out.append({"cfg": _cfg(e), "steps": pre + [_s("hold", "src.td"), _s("script", "dst.write", "err"), _s("emit", n=1),
                     _s("await", "arrive:src.td", n=10000), _s("call", "force"), _s("release", "src.td")] + post, "shape": "cand-force-loses-kill-race"})
+    # arch-v2 fan-out: one branch fails transiently FIRST, the sibling hits a fatal cause afterwards (and the other order)
+    pre = [_s("call", "start"), _s("await", "open")]
+    post = [_s("await", "stopped", n=10000), _s("sleep", n=20000)]
+    for first, second in (("dst", "dst2"), ("dst2", "dst")):
+        for fatal_first in (False, True):
+            a, b = (second, first) if fatal_first else (first, second)   # a: transient branch, b: fatal branch
+            out.append({"cfg": _cfg("v2", dests=2), "steps": pre + [
+                _s("hold", "dst.write"), _s("hold", "dst2.write"), _s("script", a + ".write", "err"), _s("script", b + ".write", "nack"),
+                _s("script", "dlq.write", "err"), _s("emit", n=1), _s("await", "arrive:dst.write", n=10000),
+                _s("await", "arrive:dst2.write", n=10000), _s("release", first + ".write"), _s("sleep", n=3000),
+                _s("release", second + ".write")] + post, "shape": "cand-fanout"})
     return out
 
 
@@ -145,7 +156,10 @@ class C10(Prop):
             "in-memory DB, gated fake plugins): one splitmix64 state draws the engine, ErrRecoveryCfg (MaxRetries -1..3, "
             "MinDelay 1-2 ms, MaxDelay 5-10 ms, window 30-50 ms), the DLQ window, the failure (source read, processor, "
             "destination write / rejection, DLQ write, open, teardown) and the instant of stop / force stop / StopAndWait / "
-            "StopAll (while records are in flight, during the back-off, after the failure). distinct = distinct input JSON; "
+            "StopAll (while records are in flight, during the back-off, after the failure); a quarter of the arch-v2 "
+            "histories run a pipeline with TWO destinations whose branches of one batch pass are parked and released in a "
+            "drawn order with a drawn outcome each (write error, rejection absorbed / over the threshold, rejection whose DLQ "
+            "write fails). distinct = distinct input JSON; "
             "non-trivial = at least one injected failure or stop call was observed together with at least one closing "
             "status (UserStopped / SystemStopped / Degraded / Recovering)")
     trusted_base = [
@@ -161,7 +175,9 @@ class C10(Prop):
     ]
     assumptions = [
         "status writes (PipelineService.UpdateStatus) succeed: store failures are outside the model",
-        "one pipeline with one source, one destination, at most one pipeline-level processor, one DLQ",
+        "one pipeline with one source, one destination (arch-v2: one or two), at most one pipeline-level processor, one DLQ",
+        "arch-v2: the failures injected into one run at the source read, the processor, the destination branches and the "
+        "DLQ write are taken to be members of the ONE error the source's worker returns (errors.Join, Life/Fanout.v)",
         "which error wins the tomb on the real scheduler is resolved by the acceptor (search), not proved",
         "time stamps are compared only through differences, with a slack of a quarter of MaxRetriesWindow for the "
         "attempt bound; the lower delay bound is checked exactly (timers never fire early)",
@@ -172,7 +188,7 @@ class C10(Prop):
 
     def shards(self, tier, seed):
         if tier == "quick":
-            return [["--seed", str(seed), "--n", "15"] for _ in range(NCPU)]
+            return [["--seed", str(seed), "--n", "17"] for _ in range(NCPU)]
         procs = [1, 2, 4, 8, 16]
         return [["--seed", str(seed), "--n", str(max(1, 2000 // NCPU)), "--mode", "p%d" % procs[k % len(procs)]]
                 for k in range(NCPU)]
@@ -282,6 +298,9 @@ class C10(Prop):
                     k += "/" + kinds[0]
                     if kinds[0] == "processor-error" and case["input"]["cfg"].get("dlq_thr", 0) == 0:
                         k += "/dlq-threshold-0"
+                    if case["input"]["cfg"].get("dests", 1) >= 2:
+                        # the fatal cause reached the tomb (or failed to) joined with the sibling branch's result
+                        k += "/fan-out"
                 keys.append(k)
         if not keys:
             return "%s/model-rejects-log" % eng if code & 1 else "%s/unknown" % eng
